@@ -7,6 +7,7 @@ import gen
 from common import Outcome, close, f2h, h2f, np, rng_for, run_driver
 from props.c14 import snap_val
 
+RULE_ADDENDA = ("reset() twice, before any update, inside the pre-history, after an unread pre-history, from inside a user callback; BOCD's whole run-length table vs a fresh instance; config=None path")
 LEVEL = "proof"
 EXPLANATION = ("Theorems: reset s = init as whole model states for every detector and carrier; run_after_reset. This run: "
                "(pre-history, reset, post-stream) vs a fresh instance on the real code, compared bit-exactly, plus model correspondence.")
